@@ -174,7 +174,7 @@ func RType(r Term) Term  { return App(SInt, "rtype", r) }
 func ElemRef(a, i Term) Term {
 	return App(SInt, "elemref", a, i)
 }
-func SLen(s Term) Term { return App(SInt, "slen", s) }
+func SLen(s Term) Term    { return App(SInt, "slen", s) }
 func SIdx(s, k Term) Term { return App(SInt, "sidx", s, k) }
 
 // ---- heap naming -----------------------------------------------------------
